@@ -131,7 +131,9 @@ def tee_case(draw, tier):
     cell = CELL if fmt != "text" else st.one_of(st.text(alphabet="ab\xe9{}\n", max_size=3), st.integers(0, 9), st.none())
     tbl = draw(gen.table(hdr, [cell] * nf, max_rows=5 if tier == "quick" else 10, ragged=fmt != "text" and draw(st.booleans())))
     kind = draw(st.sampled_from(KINDS))
-    c = {"fmt": fmt, "table": tbl, "kind": kind, "passes": draw(st.sampled_from([1, 1, 2]))}
+    c = {"fmt": fmt, "table": tbl, "kind": kind, "passes": draw(st.sampled_from([1, 1, 2])),
+         # the target may already hold the (longer) output of an earlier run: a tee replaces it, as to* does
+         "prefill": draw(st.booleans())}
     if fmt in ("csv", "tsv"):
         c["kw"] = {"write_header": draw(st.booleans()), "encoding": draw(st.sampled_from(["utf-8", "latin-1", "utf-8-sig"] if kind in ("plain", "mem") else ["utf-8", "latin-1"]))}
         if draw(st.booleans()):
@@ -177,6 +179,14 @@ def check_tee(case, ctx):
     if fmt == "text" and any(v is None for r in tbl[1:] for v in r) and False:
         pass
     try:
+        if case.get("prefill"):
+            longer = [list(tbl[0])] + [list(r) for r in tbl[1:]] * 3 + [[("x" * 40) if fmt != "text" else "x" * 40] * len(tbl[0])]
+            if fmt == "text":
+                longer = [list(tbl[0])] + [["x" * 40] * len(tbl[0])] * 5
+            tee_pre = tee(longer, t_tee, **kw)
+            for _ in tee_pre:
+                pass
+            ctx.label("prefilled")
         view = tee(codec.snapshot(tbl), t_tee, **kw)
         for _ in range(case["passes"]):
             got = [tuple(r) for r in view]
